@@ -169,7 +169,7 @@ fn roots_family(ctx: &Ctx, tag: &str, cons: &Consensus, a: &[BlockView], b: &[Bl
         }
         report.states.insert(fp(&(tag, tip.hash().as_slice().to_vec())));
     }
-    if reorgs == 0 && report.violations.is_empty() {
+    if reorgs == 0 && report.violations.is_empty() && !tag.starts_with("interleaving-") {
         return Err(format!("roots universe {tag}: the delivery order contains no reorganisation"));
     }
     report.outcomes.insert(fp(&(tag, reorgs)));
@@ -388,7 +388,7 @@ pub fn meta(_tier: Tier) -> Meta {
     Meta {
         id: "C19",
         level: "model_checking",
-        rule: "roots: two universes (flat world: script-bearing branches of 6 and 5 blocks from genesis; dynamic-difficulty world: common block, branch A of 6 fast blocks and branch B of 4 slow ones where B is heavier) - every block of every fork must commit the hash of the root of an in-memory MMR over its ancestors' header digests; blocks are delivered to a real node (A then B, B then A, and A-partly / B / rest of A so that the second reorg re-attaches verified blocks) and after every delivery the store-backed MMR root for every height equals the in-memory one, and for the tip every leaf set of size <= 3 (all sets up to 9 leaves, boundary sets beyond) gets a proof that verifies against the committed root, fails against the root committed by the sibling fork at the same height, and does not verify the sibling fork's headers. filters: the real BlockFilter builder on a real node over every first lead 1..4 of the script-bearing universe (two reorganisations): one pass after every k-th delivery (k = 1..4) and, with both branches extended by two empty blocks, for every d = 1..6 and every gate g = 0..d: a1..a_d delivered without a pass, a pass started, b1..b_(d+1) processed at the gate before block g of that pass (the reorg happens while the pass iterates the old main chain), the pass finished, the rest of A delivered (reorg back) and a final pass; after the builder has caught up every main-chain block has a filter that matches every lock / type script hash of its outputs and spent inputs (resolved by a plain map) and filter_hash = blake2b(parent filter hash, hash(filter)) from zero.",
+        rule: "roots: two universes (flat world: script-bearing branches of 6 and 5 blocks from genesis; dynamic-difficulty world: common block, branch A of 6 fast blocks and branch B of 4 slow ones where B is heavier) - every block of every fork must commit the hash of the root of an in-memory MMR over its ancestors' header digests; blocks are delivered to a real node (thorough: in every interleaving of the two flat branches, 462 orders; always: A then B, B then A, and A-partly / B / rest of A so that the second reorg re-attaches verified blocks) and after every delivery the store-backed MMR root for every height equals the in-memory one, and for the tip every leaf set of size <= 3 (all sets up to 9 leaves, boundary sets beyond) gets a proof that verifies against the committed root, fails against the root committed by the sibling fork at the same height, and does not verify the sibling fork's headers. filters: the real BlockFilter builder on a real node over every first lead 1..4 of the script-bearing universe (two reorganisations): one pass after every k-th delivery (k = 1..4) and, with both branches extended by two empty blocks, for every d = 1..6 and every gate g = 0..d: a1..a_d delivered without a pass, a pass started, b1..b_(d+1) processed at the gate before block g of that pass (the reorg happens while the pass iterates the old main chain), the pass finished, the rest of A delivered (reorg back) and a final pass; after the builder has caught up every main-chain block has a filter that matches every lock / type script hash of its outputs and spent inputs (resolved by a plain map) and filter_hash = blake2b(parent filter hash, hash(filter)) from zero.",
         assumptions: &["the light-client protocol handlers (GetLastStateProof / GetBlocksProof) are not driven; the claim stops at Snapshot::chain_root_mmr they call", "GCS filters have false positives by construction: only 'every required script matches' is judged"],
         bounds: json!({"proof_leaf_sets": "<= 3 leaves", "builder_lags": [1, 2, 3, 4], "gate_positions": "every block number of the pass"}),
     }
@@ -412,6 +412,34 @@ pub fn run(ctx: &Ctx) -> Report {
             // there and back: a1..a3, b1..b4 (reorg), a4..a6 (reorg back onto already verified blocks)
             let back: Vec<BlockView> = u.a[..3].iter().chain(u.b[..4].iter()).chain(u.a[3..].iter()).cloned().collect();
             roots_family(ctx, "flat-there-and-back", &cons, &u.a, &u.b[..4], Some(back), &mut report)?;
+        }
+        // thorough: every interleaving of the two flat branches
+        if ctx.tier.is_thorough() {
+            let cons = consensus(&WorldOpts::default());
+            set_time(time_for_height(40));
+            let mut forge = Forge::new(&ctx.scratch.join("c19-forge-i"), &cons)?;
+            let u = c18::build(&mut forge, &cons)?;
+            for (k, o) in crate::props::c01::orders(u.a.len(), u.b.len()).into_iter().enumerate() {
+                if !ctx.mine(100 + k as u64) {
+                    continue;
+                }
+                if ctx.out_of_time() {
+                    report.cap_hit = Some("roots interleavings: wall budget".into());
+                    break;
+                }
+                let (mut ia, mut ib) = (0, 0);
+                let mut order = vec![];
+                for take_a in o {
+                    if take_a {
+                        order.push(u.a[ia].clone());
+                        ia += 1;
+                    } else {
+                        order.push(u.b[ib].clone());
+                        ib += 1;
+                    }
+                }
+                roots_family(ctx, &format!("interleaving-{k}"), &cons, &u.a, &u.b, Some(order), &mut report)?;
+            }
         }
         if ctx.mine(1) || ctx.shards == 1 {
             let cons = crate::props::c01::dyn_world();
